@@ -172,3 +172,11 @@ CASES += [
         (_T219, "                elif hasattr(self, \"_d__data\"):\n                    del self._d__data\n",
                 "                elif hasattr(self, \"_d__data\"):\n                    delattr(self, \"_d__data\")\n", 1)]},
 ]
+
+_TC19 = "quantarhei/spectroscopy/twodcontainer.py"
+CASES += [
+    {"name": "container of views created without the requested type (the repaired defect)", "kind": "mutant", "rule": "C19-K", "edits": [
+        (_TC19, "            cont = TwoDSpectrumContainer(axis, dtype=stype)\n", "            cont = TwoDSpectrumContainer(axis)\n", 1)]},
+    {"name": "requested type handed to the container by position", "kind": "twin", "edits": [
+        (_TC19, "            cont = TwoDSpectrumContainer(axis, dtype=stype)\n", "            cont = TwoDSpectrumContainer(axis, stype)\n", 1)]},
+]
